@@ -271,6 +271,12 @@ func (e *Encoder) writeValue(val reflect.Value, tagType byte) error {
 				}
 
 				if t.asList {
+					if v.CanInterface() {
+						if _, ok := v.Interface().(Marshaler); ok {
+							// a Marshaler writes its own payload: it cannot be re-typed
+							return fmt.Errorf("invalid use of ,list struct tag on a Marshaler %v", v.Type())
+						}
+					}
 					switch typ {
 					case TagByteArray, TagIntArray, TagLongArray:
 						typ = TagList // override the parsed type
